@@ -6,6 +6,7 @@ package props
 import (
 	"bytes"
 	"fmt"
+	"io"
 	"strings"
 	"sync/atomic"
 	"testing"
@@ -39,7 +40,8 @@ func c06RenderVia(route string, src []byte, ctx pongo2.Context) (string, error) 
 	if route == "" || route == "FromBytes" {
 		return c06RenderBytes(src, ctx)
 	}
-	set := pongo2.NewSet("c06", &memLoader{files: map[string]string{"/t.tpl": string(src), "/inc.tpl": `{% include "/t.tpl" %}`, "/ssi.tpl": `{% ssi "/t.tpl" parsed %}`}})
+	set := pongo2.NewSet("c06", &memLoader{files: map[string]string{"/t.tpl": string(src), "/inc.tpl": `{% include "/t.tpl" %}`, "/ssi.tpl": `{% ssi "/t.tpl" parsed %}`,
+		"/supbase.tpl": "{% block c06b %}" + string(src) + "{% endblock %}", "/sup.tpl": `{% extends "/supbase.tpl" %}{% block c06b %}{{ block.Super }}{% endblock %}`}})
 	var tpl *pongo2.Template
 	var err error
 	switch route {
@@ -53,6 +55,9 @@ func c06RenderVia(route string, src []byte, ctx pongo2.Context) (string, error) 
 		tpl, err = set.FromFile("/inc.tpl")
 	case "ssi":
 		tpl, err = set.FromFile("/ssi.tpl")
+	case "super":
+		// the text stands in a parent's block and reaches the output through block.Super
+		tpl, err = set.FromFile("/sup.tpl")
 	case "RenderTemplateString":
 		return set.RenderTemplateString(string(src), ctx)
 	case "RenderTemplateBytes":
@@ -69,8 +74,30 @@ func c06RenderVia(route string, src []byte, ctx pongo2.Context) (string, error) 
 	if err != nil {
 		return "", fmt.Errorf("execute: %w", err)
 	}
+	// the other ways to execute write the same bytes
+	var wb, ub bytes.Buffer
+	s2, err2 := tpl.Execute(ctx)
+	err3 := tpl.ExecuteWriter(ctx, &wb)
+	err4 := tpl.ExecuteWriterUnbuffered(ctx, &onlyWriter{&ub})
+	if err2 != nil || err3 != nil || err4 != nil {
+		return "", fmt.Errorf("execute: ExecuteBytes succeeded, Execute / ExecuteWriter / ExecuteWriterUnbuffered: %v / %v / %v", err2, err3, err4)
+	}
+	if s2 != string(out) {
+		return s2, nil
+	}
+	if wb.String() != string(out) {
+		return wb.String(), nil
+	}
+	if ub.String() != string(out) {
+		return ub.String(), nil
+	}
 	return string(out), nil
 }
+
+// onlyWriter hides every method of the wrapped writer but Write
+type onlyWriter struct{ w io.Writer }
+
+func (o *onlyWriter) Write(p []byte) (int, error) { return o.w.Write(p) }
 
 var c06Alphabet = []byte{'{', '}', '%', '#', '-', '"', '\'', '\\', '\n', ' ', 'a', 0x01}
 
@@ -163,6 +190,9 @@ func checkC06Text(c any, r *Rec) error {
 		r.Class("has-delimiter(totality only)")
 		return nil
 	}
+	if cs.Route == "super" && len(full) > 0 && full[len(full)-1] == '{' {
+		cs.Route = "FromFile" // (a trailing brace would form a delimiter with the endblock tag written behind it)
+	}
 	out, err := c06RenderVia(cs.Route, full, pongo2.Context{})
 	if err != nil {
 		return fmt.Errorf("delimiter-free source %q failed (%s): %v", cs.Src, cs.Route, err)
@@ -188,9 +218,9 @@ func checkC06Text(c any, r *Rec) error {
 
 var _ = register(&propSpec{
 	ID:   "C06.text",
-	Rule: "byte strings built without {{ {% {# (now and then repeated up to 4 KiB / 64 KiB / just over 1 MiB; lexer-significant chars, control bytes incl. 0x01, high bytes/invalid UTF-8, CR/LF, BOM, multi-byte), handed to the engine by a drawn route (FromBytes with the caller's buffer scribbled afterwards, FromString, FromFile, FromCache, RenderTemplateString/Bytes/File, as the target of an include, as the target of ssi parsed); must render to themselves byte for byte. Non-trivial: contains a lexer-significant, control or non-ASCII byte; distinct by source bytes.",
+	Rule: "byte strings built without {{ {% {# (now and then repeated up to 4 KiB / 64 KiB / just over 1 MiB; lexer-significant chars, control bytes incl. 0x01, high bytes/invalid UTF-8, CR/LF, BOM, multi-byte), handed to the engine by a drawn route (FromBytes with the caller's buffer scribbled afterwards, FromString, FromFile, FromCache, RenderTemplateString/Bytes/File, as the target of an include, as the target of ssi parsed, as the body of a parent's block reached through block.Super) and executed by all four Execute variants (the unbuffered one into a writer that has nothing but Write); must render to themselves byte for byte. Non-trivial: contains a lexer-significant, control or non-ASCII byte; distinct by source bytes.",
 	Gen: func(t *rapid.T) any {
-		cs := &c06Text{Src: genDelimFreeBytes(t, "src", 40), Route: pick(t, "route", c06Routes)}
+		cs := &c06Text{Src: genDelimFreeBytes(t, "src", 40), Route: pick(t, "route", append([]string{"super", "super"}, c06Routes...))}
 		if len(cs.Src) > 0 && cs.Src[len(cs.Src)-1] != '{' && drawInt(t, 0, 599, "big") == 0 {
 			// a large source (nothing in the statement limits the size)
 			target := pick(t, "size", []int{4097, 65537, 1<<20 + 1, 1<<20 + 1})
@@ -297,7 +327,7 @@ var c06Vars = []string{`{{ 1 }}`, `{{ "s" }}`, `{{ true }}`, `{{ 'x<y' }}`, `{{ 
 var c06CommentJunk = []string{
 	`{{ boom() }}`, `{% nosuchtag %}`, `{{ 1|nosuchfilter }}`, `{% if %}`, `{% endfor %}`, `{{ boom()|upper }}`,
 	`{% for %}`, `{{ }}`, `plain text`, `{% include "missing.tpl" %}`, `{% extends "missing.tpl" %}`, `{% block x %}`,
-	`{% verbatimx %}`, `{{ 1 / 0 }}`, `"`, `'`, ` `, `{`, `}`, `%`, `\`,
+	`{% verbatimx %}`, `{{ 1 / 0 }}`, `{% comment %}`, `{% comment again %}`, `{% macro c06m() %}`, `{% endblock %}`, `{% autoescape off %}`, `"`, `'`, ` `, `{`, `}`, `%`, `\`,
 }
 
 func genC06Frag(t *rapid.T, i int) c06Frag {
